@@ -2,7 +2,7 @@
 //! x {half, full width} x {English, Chinese} x {empty buffer, non-empty buffer at three cursor
 //! positions}, typed through the real editor (Qwerty `map_ascii` events).  The script restores the
 //! base buffer after every character by looking at the editor's state, so every character meets the
-//! same situation.  Modes are reached through the configuration call (even sessions) or through the
+//! same situation.  After the 95 characters the 15 keypad characters follow (`map_ascii_numlock`).  Modes are reached through the configuration call (even sessions) or through the
 //! CapsLock / Shift-Space keys themselves (odd sessions; there every 8th character is preceded by a
 //! double CapsLock and a double Shift-Space toggle in mid-composition).
 use crate::step::symbols;
@@ -116,10 +116,12 @@ impl Script {
         if symbols(snap).len() > self.base_len {
             return Some(Op::Key(KeyCode::Backspace, Modifiers::default()));
         }
-        if self.i == 95 {
+        const KEYPAD: &[u8] = b"1234567890+-*/.";
+        if self.i as usize == 95 + KEYPAD.len() {
             return None;
         }
-        let c = 32 + self.i as u8;
+        let c = if self.i < 95 { 32 + self.i as u8 } else { KEYPAD[self.i as usize - 95] };
+        let keypad = self.i >= 95;
         self.i += 1;
         if self.nonempty {
             match self.i % 3 {
@@ -138,7 +140,7 @@ impl Script {
             self.queue.push_back(shsp.clone());
             self.queue.push_back(shsp);
         }
-        let ev = Qwerty.map_ascii(c);
+        let ev = if keypad { Qwerty.map_ascii_numlock(c) } else { Qwerty.map_ascii(c) };
         self.queue.push_back(Op::Key(ev.code, ev.modifiers));
         self.queue.pop_front()
     }
